@@ -20,6 +20,7 @@ import (
 	"github.com/internetarchive/Zeno/internal/pkg/log"
 	"github.com/internetarchive/Zeno/internal/pkg/postprocessor/domainscrawl"
 	"github.com/internetarchive/Zeno/internal/pkg/stats"
+	"github.com/internetarchive/Zeno/internal/pkg/verifhook"
 	"github.com/internetarchive/Zeno/pkg/models"
 )
 
@@ -164,6 +165,7 @@ func (a *archiver) worker(workerID string) {
 		case seed, ok := <-a.inputCh:
 			if ok {
 				logger.Debug("received seed", "seed", seed.GetShortID(), "depth", seed.GetDepth(), "hops", seed.GetURL().GetHops())
+				verifhook.At("arch.in", seed)
 
 				if err := seed.CheckConsistency(); err != nil {
 					panic(fmt.Sprintf("seed consistency check failed with err: %s, seed id %s", err.Error(), seed.GetShortID()))
@@ -174,6 +176,7 @@ func (a *archiver) worker(workerID string) {
 				} else {
 					archive(workerID, seed)
 				}
+				verifhook.At("arch.done", seed)
 
 				select {
 				case <-a.ctx.Done():
@@ -259,6 +262,7 @@ func archive(workerID string, seed *models.Item) {
 					client = globalArchiver.Client
 				}
 
+				verifhook.At("arch.fetch", item)
 				resp, err = client.Do(req)
 				if err != nil {
 					if retry < config.Get().MaxRetry {
@@ -349,6 +353,7 @@ func archive(workerID string, seed *models.Item) {
 				stats.MeanWaitOnFeedbackTimeAdd(time.Since(feedbackTime))
 			}
 
+			verifhook.At("arch.written", item)
 			logger.Info("url archived", "url", item.GetURL().String(), "seed_id", seed.GetShortID(), "item_id", item.GetShortID(), "depth", item.GetDepth(), "hops", item.GetURL().GetHops(), "status", resp.StatusCode)
 
 			item.SetStatus(models.ItemArchived)
